@@ -11,6 +11,7 @@ import (
 	"os"
 	"path/filepath"
 	"sort"
+	"strings"
 	"sync"
 	"time"
 
@@ -453,7 +454,20 @@ func main() {
 	nstress := flag.Int("nstress", 10, "stress runs")
 	nprobe := flag.Int("nprobe", 5, "long-list lock-order probe families")
 	probePairs := flag.Int("probepairs", 60, "pairs probed per long list")
+	only := flag.String("only", "", "restrict to variants containing one of these comma-separated fragments (e.g. \"g-,gx-\" = sharded groups only)")
 	flag.Parse()
+	if *only != "" {
+		var keep []string
+		for _, v := range variants {
+			for _, frag := range strings.Split(*only, ",") {
+				if strings.Contains(v, frag) {
+					keep = append(keep, v)
+					break
+				}
+			}
+		}
+		variants = keep
+	}
 	rng := rand.New(rand.NewSource(*seed))
 	shardsL := []int{1, 2, 3, 73}
 
@@ -473,6 +487,9 @@ func main() {
 	}
 	for i := 0; i < *nprobe; i++ {
 		tv := []string{"tkg-int", "tkg-str", "tkgx-int", "tkgx-str", "tk-int"}[i%5]
+		if *only != "" && tv == "tk-int" {
+			tv = "tkgx-int"
+		}
 		runProbes(w, rng, tv, []int{73, 3, 2, 73, 1}[i%5], []int{13, 16, 24, 20, 14}[i%5], 36, *probePairs)
 	}
 	w.Close()
